@@ -83,17 +83,22 @@ def run(ck: Check):
     # temperature independence at the default threshold, same draws
     xs = [rng.uniform(-4, 4) for _ in range(200)]
     us = [rng.random() for _ in range(200)]
-    outs = []
-    for tau in (0.1, 1.0, 7.0):
-        with fixed_uniform(us):
-            outs.append(F.gumbel_sigmoid(torch.tensor(xs, dtype=torch.float64), tau=tau, hard=True).tolist())
-    ck.case({"kind": "temperature-independence"}, kind="tau-independence")
-    for i in range(200):
-        noise = math.log(us[i] + eps) - math.log(1 - us[i] + eps)
-        if abs(xs[i] + noise) > 1e-6 and not (outs[0][i] == outs[1][i] == outs[2][i]):
-            ck.disagree("hard sample at threshold 1/2 depends on the temperature", {"x": xs[i], "u": us[i], "by_tau": [o[i] for o in outs]},
-                        signature={"what": "tau-dependence"})
-            break
+    # (binary32 as well, and up to temperatures at which (logit + noise) / tau is far below the resolution of the sigmoid at 1/2)
+    taus_ind = (0.1, 1.0, 7.0, 1e5, 1e6, 1e8)
+    for dt, tol in ((torch.float64, 1e-6), (torch.float32, 1e-3)):
+        outs = []
+        for tau in taus_ind:
+            with fixed_uniform(us):
+                outs.append(F.gumbel_sigmoid(torch.tensor(xs, dtype=dt), tau=tau, hard=True).tolist())
+        ck.case({"kind": "temperature-independence", "dtype": str(dt)}, nontrivial=True, kind="tau-independence")
+        for i in range(200):
+            noise = math.log(us[i] + eps) - math.log(1 - us[i] + eps)
+            want = 1.0 if xs[i] + noise > 0 else 0.0
+            if abs(xs[i] + noise) > tol and any(o[i] != want for o in outs):
+                ck.disagree("hard sample at threshold 1/2 depends on the temperature", {"x": xs[i], "u": us[i], "dtype": str(dt),
+                                                                                        "by_tau": dict(zip(map(str, taus_ind), [o[i] for o in outs]))},
+                            expected=want, signature={"what": "tau-dependence"})
+                break
     # reproducibility
     x = torch.randn(64)
     for hard in (False, True):
@@ -103,18 +108,19 @@ def run(ck: Check):
         if not torch.equal(a, b):
             ck.disagree("sampling is not reproducible under a fixed seed", {"hard": hard}, signature={"what": "seed"})
     # guard
-    for tau in (0.0, -1.0, -1e-9):
-        ck.case({"kind": "guard", "tau": tau}, kind="guard")
+    for tau in (0.0, -1.0, -1e-9, float("nan")):
+        ck.case({"kind": "guard", "tau": repr(tau)}, kind="guard")
         try:
             r = F.gumbel_sigmoid(torch.zeros(3), tau=tau)
-            ck.disagree("non-positive temperature accepted by gumbel_sigmoid", {"tau": tau}, observed=r.tolist(), signature={"what": "guard", "tau": tau})
+            ck.disagree("a temperature that is not positive was accepted by gumbel_sigmoid", {"tau": repr(tau)}, observed=repr(r.tolist()),
+                        signature={"what": "guard", "tau": repr(tau)})
         except ValueError:
             pass
     # frequencies (support)
     n = 100_000 if ck.tier == "quick" else 1_000_000
     for xv in (-2.0, 0.0, 1.5):
-        for tau in (0.25, 1.0, 4.0):
-            torch.manual_seed(ck.seed * 1000 + int(xv * 10) + int(tau * 100) + 7)
+        for tau in (0.25, 1.0, 4.0, 1e5, 1e8):
+            torch.manual_seed(ck.seed * 1000 + int(xv * 10) + int(min(tau, 1e4) * 100) + 7)
             y = F.gumbel_sigmoid(torch.full((n,), xv), tau=tau, hard=True)
             p = 1 / (1 + math.exp(-xv))
             freq = float(y.mean())
